@@ -80,6 +80,15 @@ def c01(tier, seed):
             lines = []
             for l in build_lines(fam, 'c0', r, rng):
                 lines += [l, 'obs c0', '!inv c0']
+            if POOL_NAMES[i % len(POOL_NAMES)] == 'falsy' and r == 'faces':
+                # higher simplices called '', 0, (); then a second simplex on the faces of each (must be refused)
+                hi = sorted((x for x in fam if len(x) > 1), key=lambda x: (-len(x), sorted(x)))[:3]
+                for x, f in zip(hi, ['u10', 'u11', 'u12']):
+                    lines += ['relabel c0 {%s:%s}' % (tokS(x), f), 'obs c0', '!inv c0']
+                for j, x in enumerate(hi):
+                    fs = [tokS(y) if frozenset(y) not in hi else ['u10', 'u11', 'u12'][hi.index(frozenset(y))]
+                          for y in itertools.combinations(sorted(x), len(x) - 1)]
+                    lines += ['add c0 u%d %s -' % (900 + j, Lst(fs)), 'obs c0', '!inv c0']
             yield dict(lines=lines, pool=POOL_NAMES[i % len(POOL_NAMES)], tag='C01 build %s %s' % (r, sorted(map(sorted, fam))), judge=True)
     nh = 2000 if tier == 'quick' else 12000
     nops = 25 if tier == 'quick' else 60
@@ -174,6 +183,17 @@ def c02(tier, seed):
                     L.do('!post-add c0 %s DX' % res.split()[1])
                 L.do('obs c0')
                 yield L.case()
+        # a name re-used for another vertex set: ask for the basis, delete, add the same name on other faces
+        P = pts_of(fam)
+        reuse = [(t, q) for t in sorted(names) if len(names[t]) > 1 for q in itertools.combinations(P, len(names[t]))
+                 if frozenset(q) != names[t] and not frozenset(q) in fam - {names[t]}
+                 and all(frozenset(f) in fam and not names[t] <= frozenset(f) for f in itertools.combinations(q, len(q) - 1))]
+        for t, q in (rng.sample(reuse, min(2, len(reuse))) if thin else reuse[:6]):
+            fs = [tokS(f) for f in itertools.combinations(q, len(q) - 1)]
+            yield dict(lines=base + ['q c0 basis ' + t, 'del c0 ' + t, 'dict DX {0:1}', '!snap c0', 'add c0 %s %s DX' % (t, Lst(fs)),
+                                     '!lastok adding_a_simplex_whose_facets_are_present', '!post-add c0 %s DX' % t, 'q c0 basis ' + t,
+                                     'obs c0', '!inv c0', '!views c0'],
+                       pool=pool, tag='C02 name %s re-used on %s' % (t, q))
         # bulk add into another complex under a renaming
         if not thin or rng.random() < 0.3:
             ren = {t: 'u%d' % (300 + j) for j, t in enumerate(sorted(names)) if rng.random() < 0.5}
@@ -317,6 +337,7 @@ def c04(tier, seed):
             if B.orderOf(c, s) > 0:
                 L.do('q c0 swf ' + Lst([L.ex.T(x) for x in B.faces(c, s)]))
         L.do('q c0 closure u77 F F'); L.do('q c0 part u77 F F'); L.do('q c0 disjoint [u77]')
+        L.do('!noalias c0'); L.do('!lookups c0')        # the listings handed out are the caller's to change
         yield L.case()
     # after deletions and relabelling
     for j in range(400 if tier == 'quick' else 4000):
@@ -325,6 +346,7 @@ def c04(tier, seed):
         g.lines.append('!lookups c0'); g.out.append('ok')
         for t in g.tok_names('c0'):
             g.do('q c0 closure %s F F' % t); g.do('q c0 part %s T T' % t)
+        g.lines += ['!noalias c0', '!lookups c0']; g.out += ['ok', 'ok']
         yield dict(lines=g.lines, pool=pool, tag='C04 after history seed=%d' % (seed * 31 + j))
 
 
@@ -415,6 +437,8 @@ def c05(tier, seed):
         pool = POOL_NAMES[i % len(POOL_NAMES)]
         route = ['faces', 'basis'][i % 2]
         base = build_lines(fam, 'c0', route, attrs=(route == 'faces'))
+        if pool == 'falsy' and route == 'faces':
+            base += falsify_lines(fam, 'c0', rng)        # existing higher simplices called '', 0, ()
         L0 = Live(pool)
         L0.many(base)
         # the overlap target for copy(c): shares one name with c0
@@ -505,6 +529,7 @@ def homology_queries(L, h='c0', z=True):
     L.do('q %s betti %s' % (h, Lst([str(k) for k in range(mo + 3)])))
     L.do('q %s euler' % h)
     L.do('!betti ' + h)
+    L.do('!noalias ' + h); L.do('q %s betti' % h); L.do('!betti ' + h)      # after the caller changed what queries returned
     if z:
         for k in range(mo + 2):
             L.do('q %s snf %d' % (h, k))
@@ -518,6 +543,14 @@ def homology_queries(L, h='c0', z=True):
 
 
 def c06(tier, seed, z=False, pid='C06'):
+    yield from _c06(tier, seed, z, pid)
+    if not z:
+        # ranks >= 128: a long cycle, and the complete graph on 17 points (136 edges, 120 independent cycles)
+        yield dict(lines=['ring c0 new 130', '!betti c0', '!expect-betti c0 0:1,1:1'], pool='int', tag='C06 ring of 130 points')
+        yield dict(lines=['kskel c0 new 16', '!betti c0', '!expect-betti c0 0:1,1:120'], pool='int', tag='C06 complete graph on 17 points')
+
+
+def _c06(tier, seed, z=False, pid='C06'):
     rng = random.Random(seed)
     fams = fams_for(tier, rng, 4, 5, None)
     routes = ['faces', 'basis', 'shuffle', 'superdel']
@@ -594,7 +627,12 @@ class _asLive:
 
 
 def c07(tier, seed):
-    return c06(tier, seed, z=True, pid='C07')
+    yield from _c06(tier, seed, z=True, pid='C07')
+    yield dict(lines=['kskel c0 new 16', '!betti c0', '!snf c0', '!zbasis c0'], pool='int', tag='C07 complete graph on 17 points (nullity 120)')
+    # boundary operators of rank >= 128 (where an 8-bit counter would wrap): long cycles, alone and with a chord
+    for n in ((130,) if tier == 'quick' else (129, 130, 140, 200)):
+        lines = ['ring c0 new %d' % n, 'q c0 Z [1]', '!zbasis c0', '!snf c0', '!betti c0', '!expect-betti c0 0:1,1:1']
+        yield dict(lines=lines, pool='int', tag='C07 ring of %d points' % n)
 
 
 # ---------------------------------------------------------------------------------------------------------
@@ -653,6 +691,7 @@ def c08(tier, seed):
                 L.do('!same c0 c1')
         L.do('!same c0 c1')
         L.do('obs c0'); L.do('obs c1'); L.do('alias')
+        L.do('!noshare c0 c1 ' + ' '.join('x%d' % k for k in range(6)))      # every constructed complex is a new object with its own dicts
         yield L.case()
     for j in range(300 if tier == 'quick' else 3000):
         g = FiltGen(seed * 977 + j, POOL_NAMES[j % len(POOL_NAMES)])
@@ -767,12 +806,17 @@ def c09(tier, seed):
         else:
             g.do('iter f'); g.do('snap f r')
         g.do('alias'); g.do('!noshare f r'); g.do('obs r')
+        g.do('!fcopyinto f')
         g.do('!snap f')
         names = g.toks('r')
         if names:
             g.do('dset r %s 1 9' % rng.choice(names))
             g.do('del r ' + rng.choice(names))
+        g.do('add r u882 [] -')
         g.do('!same f'); g.do('!snap r')
+        if kind in (0, 2):
+            # a second snapshot at the same index is taken from the filtration, not from the first one
+            g.do('snap f r2'); g.do('!samecontent f r2'); g.do('obs r2'); g.do('!noshare f r r2'); g.do('!filt f')
         vis = g.toks('f')
         if vis:
             g.do('dset f %s 2 8' % rng.choice(vis))
@@ -813,8 +857,24 @@ def c10(tier, seed):
             L.do('add c0 %s [] -' % rng.choice(L.toks('c0'))); L.do('add c0 u996 [u997,u998] -')
         L.do('copy c0 c1'); L.do('!equal c0 c1'); L.do('!cmp c0 c1'); L.do('q c0 eq c1'); L.do('q c1 le c0'); L.do('q c1 lt c0')
         names = L.toks('c1')
-        kind = j % 5
-        if kind == 4:
+        kind = j % 6
+        if kind == 5:
+            # a name that is a point on one side and an edge (over two other points) on the other
+            pts = sorted(pts_of(fam))
+            if len(pts) >= 3:
+                x = rng.choice(pts)
+                rest = [p for p in pts if p != x]
+                L.do('new c1')
+                for p in rest:
+                    L.do('add c1 u%d [] -' % p)
+                L.do('add c1 u%d %s -' % (x, Lst(['u%d' % p for p in rng.sample(rest, 2)])))
+                L.do('new c2')                      # and against the bare points of c0
+                for p in pts:
+                    L.do('add c2 u%d [] -' % p)
+                L.do('!cmp c2 c1'); L.do('!cmp c1 c2')
+                for op in ops:
+                    L.do('q c2 %s c1' % op); L.do('q c1 %s c2' % op)
+        elif kind == 4:
             # same names and orders everywhere, but two simplices of one order exchange their names: faces differ
             c1 = L.ex.objs['c1']
             byk = {}
@@ -938,6 +998,17 @@ def c11(tier, seed):
                 L.do('addb f - [u%d,u%d] -' % (a, b))
                 toks.append('u%d+u%d' % (a, b))      # edges are handed over by their end points (see `growb`)
             added += new
+            if rng.random() < 0.35:
+                # points among the new simplices (documented: no effect): end points of the new edges, and sometimes a
+                # vertex that has just joined the complex together with the edges that attach it
+                toks = [tk.split('+')[rng.randrange(2)] for tk in toks[:2]] + toks
+                if rng.random() < 0.5:
+                    L.do('add f u%d [] -' % npts)
+                    toks.insert(rng.randrange(len(toks) + 1), 'u%d' % npts)
+                    for a in rng.sample(range(npts), rng.randrange(0, min(3, npts) + 1)):
+                        L.do('addb f - [u%d,u%d] -' % (a, npts))
+                        toks.append('u%d+u%d' % (a, npts)); added.append((a, npts))
+                    npts += 1
             if len(toks) >= 2 and rng.random() < 0.5:
                 for tk in toks:                      # the same edges handed over in separate calls
                     L.do('growb f ' + Lst([tk])); L.do('!lastok growFlagComplex_with_an_edge_just_added')
@@ -981,8 +1052,12 @@ def vr_cases(rng, n, dims=(1, 2, 3)):
         eps = rng.choice(epss)
         L = Live(POOL_NAMES[j % len(POOL_NAMES)], 'VR %s dim=%d eps=%r pts=%r' % (kind, dim, eps, pts), vr_eps=eps)
         L.do('new c0')
+        withattrs = (j % 3 == 0)
         for p in range(npts):
-            L.do('add c0 u%d [] -' % p)
+            if withattrs:
+                L.do('dict DP%d {1:%d}' % (p, p)); L.do('add c0 u%d [] DP%d' % (p, p))
+            else:
+                L.do('add c0 u%d [] -' % p)
         if npts >= 2 and rng.random() < 0.3:
             L.do('addb c0 - [u0,u1] -')      # edges of the embedded complex do not matter
         L.do('emb e c0 %d' % dim)
@@ -996,7 +1071,7 @@ def vr_cases(rng, n, dims=(1, 2, 3)):
         L.ex.vr_eps = eps
         L.do('vr e v ' + Lst(close))
         L.do('!vr e v')
-        L.do('obs v')
+        L.do('obs v'); L.do('!noshare c0 v')
         if npts >= 2 and rng.random() < 0.4:
             # the same embedding object after a point has been moved
             mv = rng.randrange(npts)
@@ -1006,7 +1081,18 @@ def vr_cases(rng, n, dims=(1, 2, 3)):
                       if e.distance(e.positionOf(P[a]), e.positionOf(P[b])) <= eps]
             L.do('vr e v2 ' + Lst(close2))
             L.do('!vr e v2')
-            L.do('obs v2')
+            L.do('obs v2'); L.do('!noshare c0 v v2')
+        if npts >= 2 and rng.random() < 0.3:
+            # the same embedding object after a positioned point has left the complex and another has joined it
+            gone = rng.randrange(npts)
+            L.do('del c0 u%d' % gone); L.do('add c0 u%d [] -' % (50 + gone))
+            L.do('pos e u%d %s' % (50 + gone, Lst([str(rng.randrange(0, 5)) for _ in range(dim)])))
+            P3 = list(c.simplicesOfOrder(0))
+            close3 = ['%d.%d' % (a, b) for a in range(len(P3)) for b in range(a + 1, len(P3))
+                      if e.distance(e.positionOf(P3[a]), e.positionOf(P3[b])) <= eps]
+            L.do('vr e v3 ' + Lst(close3))
+            L.do('!vr e v3')
+            L.do('obs v3')
         out.append(L.case())
     return out
 
@@ -1142,13 +1228,40 @@ def c13(tier, seed, pid='C13'):
         for i in IDX:
             if rng.random() < 0.5:
                 g.do('setidx f %d' % i); filt_queries(g); g.do('snap f s%d' % (i + 5)); g.do('obs s%d' % (i + 5))
+                if rng.random() < 0.5:
+                    # the caller changes its snapshot; the next snapshot at this index shows the filtration again
+                    g.do('add s%d u990 [] -' % (i + 5))
+                    vis = g.vis()
+                    if vis:
+                        g.do('del s%d %s' % (i + 5, rng.choice(vis)))
+                    g.do('snap f t%d' % (i + 5)); g.do('!samecontent f t%d' % (i + 5)); g.do('obs t%d' % (i + 5)); g.do('!filt f')
                 if pid == 'C14':
                     g.do('next f'); g.do('prev f'); g.do('prev f'); g.do('q f getidx')
         yield g.case('%s filtration history seed=%d' % (pid, seed * 2711 + j))
 
 
 def c14(tier, seed):
-    return c13(tier, seed, 'C14')
+    yield from c13(tier, seed, 'C14')
+    # the current index vanishes from the index set (everything born there is deleted) and is then set again
+    rng = random.Random(seed + 77)
+    for j in range(40 if tier == 'quick' else 400):
+        g = FiltGen(seed * 1931 + j, POOL_NAMES[j % len(POOL_NAMES)])
+        others = rng.sample(IDX, rng.randrange(0, 3))
+        for i in others:
+            g.do('setidx f %d' % i); g.do('add f - [] -')
+        i = rng.choice(IDX)
+        g.do('setidx f %d' % i)
+        born = [n for n in g.alltoks() if g.F().addedAtIndex(g.ex.name(n)) == g.F().getIndex()]
+        g.do('add f u700 [] -'); g.do('add f u701 [] -'); g.do('addb f u702 [u700,u701] -')
+        for n in born + ['u700', 'u701']:
+            g.do('del f ' + n)
+        g.do('q f indices'); g.do('q f getidx')
+        g.do('setidx f %d' % i)                       # the same value again: it is an index again
+        g.do('q f indices'); g.do('!filt f'); g.do('!nav f')
+        for op in rng.sample(['next f', 'prev f', 'minidx f', 'maxidx f', 'next f', 'prev f'], 4):
+            g.do(op); g.do('q f getidx')
+        g.do('iter f'); g.do('q f getidx'); g.do('obs f')
+        yield g.case('C14 the current index emptied and set again %d/%d' % (seed, j))
 
 
 # ---------------------------------------------------------------------------------------------------------
@@ -1237,6 +1350,10 @@ def c15(tier, seed):
                     L.do('!post-addfrom c1 c0 ' + rs)
                 L.do('!same c0'); L.do('obs c1')
                 yield L.case()
+    # names that print alike (0 and '0', 1 and 1.0-as-string ...): outside the model's assumption that generated
+    # names are injective in the old name, so judged on the implementation alone
+    for j in range(60 if tier == 'quick' else 600):
+        yield dict(lines=['!disjoint-twin %d' % (seed * 131 + j)], pool='int', tag='C15 relabelDisjointFrom with names that print alike %d' % j)
     # known finding: chains and swaps (injective, avoiding the names that stay) are rejected
     yield dict(lines=['!relabel-chain-known', 'new c0', 'add c0 u1 [] -', 'add c0 u2 [] -', 'addb c0 u3 [u1,u2] -', 'relabel c0 {u1:u2,u2:u9}', 'obs c0'],
                pool='int', tag='C15 KNOWN chain witness')
@@ -1312,13 +1429,13 @@ def c17(tier, seed):
     if tier == 'quick':
         fams = fams + rng.sample(all_complexes(5), 300)
     for i, fam in enumerate(fams):
-        pool = ['int', 'str', 'intstr'][i % 3]
+        pool = ['int', 'str', 'intstr', 'blank', 'twin'][i % 5]
         L = Live(pool, 'C17 %s' % (sorted(map(sorted, fam)),))
         L.many(build_lines(fam, 'c0', ['faces', 'basis', 'shuffle'][i % 3], rng, attrs=(i % 2 == 0)))
         names = L.toks('c0')
         for t in names:
             if rng.random() < 0.4:
-                L.do('dset c0 %s %d %d' % (t, rng.randrange(4), rng.choice([0, 1, 7, 1000, 1001, 1002, 1003, 1004, 1005, 1006, 1007, 1008, 1009, 1010, 1011])))
+                L.do('dset c0 %s %d %d' % (t, rng.randrange(4), rng.choice([0, 1, 7] + list(range(1000, 1015)))))
         if names and i % 4 == 0:
             L.do('del c0 ' + rng.choice(names))
             names = L.toks('c0')
